@@ -33,7 +33,7 @@ RULE = (
     "cases whose default is falsy or a container, or whose description contains a quote/backslash/newline/non-ASCII"
 )
 ASSUMPTIONS = [
-    "a one-branch composition whose branch and whose outer schema both declare a default is excluded (two declared defaults compete for one slot; the statement does not say which wins)",
+    "for a one-member composition whose member and whose outer schema both declare a default only the outer one is judged (the statement speaks of a schema and the schemas of its properties, not of composition members)",
     "description strings exclude lone surrogates (not encodable in a module file)",
 ]
 
@@ -56,6 +56,11 @@ def inner_shapes():
         out.append((kw, T({kw: [{"type": "string"}, {"minimum": 1}]})))
     out.append(("not", T({"not": {"type": "string"}})))
     # compositions whose members are all trivial: what is left to carry the default is "the trivial element"
+    # the composition collapses to its only member, which declares a default of its own: the statement speaks of the schema
+    # (or property schema) that carries the composition, so that default is the one the position must carry; nothing is
+    # demanded of the member's (the multiset comparison is switched off for these shapes)
+    out.append(("one-member-with-own-default:allOf", T({"allOf": [{"type": "integer", "default": 3}]})))
+    out.append(("one-member-with-own-default:anyOf-nested", T({"anyOf": [{"oneOf": [{"type": "string"}, {"type": "null"}], "default": "inner"}]})))
     out.append(("allOf[{}]", T({"allOf": [{}]})))
     out.append(("object+allOf[{}]", T({"type": "object", "title": "In", "allOf": [{}], "anyOf": [True]})))
     out.append(("anyOf[true]+oneOf[{}]", T({"anyOf": [True], "oneOf": [{}]})))
@@ -181,7 +186,7 @@ def check_default_case(st, cname, place, find, iname, make, d, d2, rank):
     st.add("states")
     st.add("transitions")
     declared = declared_defaults(schema)
-    multiset_ok = not cname.startswith("shared-definition")  # one declared default, legitimately present once per reference / once on a shared class
+    multiset_ok = not cname.startswith("shared-definition") and not iname.startswith("one-member-with-own-default")  # one declared default, legitimately present once per reference / once on a shared class
     try:
         tree = parse(docs.load(schema))[0]
     except Exception as exc:
